@@ -923,6 +923,12 @@ func (r *Route) UnmarshalYAML(unmarshal func(any) error) error {
 		return err
 	}
 
+	for _, sr := range r.Routes {
+		if sr == nil {
+			return errors.New("missing route")
+		}
+	}
+
 	for k := range r.Match {
 		if !model.LabelNameRE.MatchString(k) {
 			return fmt.Errorf("invalid label name %q", k)
